@@ -19,6 +19,7 @@ from cohdl import Bit, BitVector, Signal, Unsigned, Null, Full, Port
 from cohdl import std
 from cohdl.std.axi import axi4_light as axi
 from cohdl.std.reg import reg32
+from cohdl.std.axi.axi4_light.interconnect import Interconnect
 """
 
 ADDR_BITS = 9
@@ -42,6 +43,13 @@ class Item:
 class Layout:
     def __init__(self, seed, style='mixed'):
         self.rnd = random.Random(seed)
+        # style 'interconnect': the map sits behind std.axi.axi4_light.interconnect.Interconnect in a 512 byte window
+        # of a 1024 byte master address space (window_base 0 or 512); everything outside is answered by the background
+        self.window_base = 0
+        self.master_bits = ADDR_BITS
+        if style == 'interconnect':
+            self.master_bits = ADDR_BITS + 1
+            self.window_base = self.rnd.choice([0, 1 << ADDR_BITS])
         self.items = []
         self.exports = []      # (port, width, kind, ref)   ports showing hardware-visible storage
         self.notes = []        # (port, item_name, 'rd'|'wr')
@@ -56,6 +64,8 @@ class Layout:
         limit = (1 << ADDR_BITS) // 4
         n = 0
         kinds = ['memword', 'memword', 'hwword', 'reg', 'reg', 'array', 'regfile', 'memory', 'memory', 'inout']
+        if self.style == 'interconnect':
+            kinds = ['memword', 'memword', 'hwword', 'reg', 'array', 'memory']
         if self.style == 'words':
             kinds = ['memword', 'hwword', 'array', 'regfile']
         while pos < limit - 20 and n < 9:
@@ -254,13 +264,18 @@ class Layout:
             L.append("    def _impl_concurrent_(self):")
             L += conc
         L.append("")
-        L.append(f"class {cname}(axi.base_entity(addr_width={ADDR_BITS})):")
+        L.append(f"class {cname}(axi.base_entity(addr_width={self.master_bits})):")
         L.append("    hw_in = Port.input(BitVector[32])")
         L.append("    hw_clear = Port.input(Bit)")
         L += ports
         L.append("    def architecture(self):")
         L.append("        root = Root(self)")
-        L.append("        self.interface_connection().connect_addr_map(root)")
+        if self.style == 'interconnect':
+            L.append("        ic = Interconnect(self.interface_connection())")
+            L.append(f"        window = ic.reserve({self.window_base}, {1 << ADDR_BITS}, prefix='win_')")
+            L.append("        window.connect_addr_map(root)")
+        else:
+            L.append("        self.interface_connection().connect_addr_map(root)")
         if exports:
             L.append("        @std.concurrent")
             L.append("        def exports():")
@@ -272,7 +287,10 @@ class Layout:
 
     # ------------------------------------------------------------------ model
     def mapped_words(self):
-        """{byte address: (item, index)} for every mapped word"""
+        """{master byte address: (item, index)} for every mapped word"""
+        return {a + self.window_base: v for a, v in self._mapped_words().items()}
+
+    def _mapped_words(self):
         m = {}
         for it in self.items:
             if it.kind in ('memword', 'hwword', 'reg', 'input', 'output'):
@@ -376,7 +394,7 @@ class Model:
         for p, w, iname, fname in self.lay.exports:
             if p == port:
                 it = next(x for x in self.lay.items if x.name == iname)
-                v = self.store[it.off]
+                v = self.store[it.off + self.lay.window_base]
                 if fname is None:
                     return v
                 f = self.lay.field(it, fname)
